@@ -1,6 +1,7 @@
 import TealerModel.Proto
 import TealerModel.Avm
 import TealerModel.Regex
+import TealerModel.NumList
 import TealerModel.Group
 import TealerModel.Lemmas.Solver
 open Tealer Tealer.Proto
@@ -207,6 +208,12 @@ partial def loop (inp out : IO.FS.Stream) (prog : List Ins) (pcb : List (Nat × 
       | .ok t => emit out "semprog ok"; out.flush; loop inp out ins (pcBlocks ins t)
       | .error e => emit out s!"semprog err {e}"; out.flush; loop inp out [] []
     | none => emit out "semprog err decode"; out.flush; loop inp out [] []
+  | ["reprnum", id, vals] =>
+    -- _repr_num_list of a sorted list of numbers ("-" = the empty list)
+    let l := if vals == "-" then [] else (vals.splitOn ",").filterMap String.toNat?
+    emit out s!"reprnum {id} {pencode (NumList.repr l)}"
+    out.flush
+    loop inp out prog pcb
   | "regex" :: id :: args =>
     handleRegex out id args
     out.flush
